@@ -32,7 +32,7 @@ def _cases():
             "X_innerproduct_Y": (1, 1, "omp2r")}
     out = {}
     for cap, (dm, ann, variant) in want.items():
-        res = c20._build((cap, table[cap], "quick"))
+        res = c20._build(("gen", cap, table[cap], "quick"))
         for b in res["cases"]:
             m = b["meta"]
             if (m["dm"], m["ann"], m["variant"], m["style"], m["lay"]) == \
@@ -61,7 +61,8 @@ def main():
                   "UntouchedOutsideRange"))
     # 3. swap the operands the scalar multiplies in inc_aX_plus_Y
     c = copy.deepcopy(base["inc_aX_plus_Y"])
-    c["bind"]["field1"], c["bind"]["field2"] = c["bind"]["field2"], c["bind"]["field1"]
+    b = c["docs"][0]["bind"]
+    b["field1"], b["field2"] = b["field2"], b["field1"]
     c["id"] += "#swap-binding"
     tests.append(("inc_aX_plus_Y: recorded binding of field1/field2 swapped", c,
                   "DocumentedValueInRange"))
